@@ -78,3 +78,15 @@ package influxql
 // C17: process-wide tables (Language, keywords, tokens, the replacers and the
 // compiled patterns, sentinel errors) are written by initialisers only.
 //@ packageinv noglobalwrites [C17]
+
+// Function literals of ast.go that need more than the default sweep contract.
+//@ func (*SelectStatement).RewriteDistinct$1
+//@   props C13
+//@   safety C13
+//@   astparams
+//@   requires notnil(n)
+//@   requires s != nil
+//@   loop 1 invariant forall(k, 0, len(n.Args), notnil(n.Args[k]))
+//@ func walkRefs$1
+//@   props C13
+//@   skip map keyed by a struct (VarRef): outside the modelled subset (same as walkRefs)
